@@ -225,7 +225,7 @@
  "name": "check_zero_block",
  "props": ["C09"],
  "level": "U/k",
- "tier": "wip",
+ "tier": "quick",
  "harness": "h_check_zero_block",
  "enforce": ["check_zero_block"],
  "unwindset": {"check_zero_block.0": 1025},
